@@ -17,6 +17,12 @@
      both 'token' and 'jwt' present (no order given), a repeated parameter, MoQ as an "HTTP
      protocol", query tokens of HTTP protocols with the http method (no setting "allows" them),
      a token without expiry claim.
+   History independence: the statement decides a request from that request and the
+   configuration only.  A sequence case (profiles "jseq", "hseq") is a list of requests handled
+   one after the other - and concurrently with other sequences - by ONE manager in one process;
+   every step i is judged by the per-request formula applied to StepCase(c, i), which does not
+   mention the other steps: nothing a previous (valid, forged, expired, absent) token or a previous
+   request's credentials carried may change the answer.
 
    Layer 1 follows the code (GetTokenImpl, JWTImpl, HTTPImpl).  A 301/303 answer with a
    Location is NOT followed (net/http would turn it into a GET without body): the request is
@@ -24,7 +30,7 @@
    it layer 1 diverged from layer 2 on the behaviours RedirectToGet).                         *)
 EXTENDS VerifCommon, SequencesExt
 
-CONSTANTS Profiles,   \* subset of {"hstatus", "htoken", "jclass", "jsig", "jplace", "jexcl"}
+CONSTANTS Profiles,   \* subset of {"hstatus", "htoken", "jclass", "jsig", "jplace", "jexcl", "jseq", "hseq"}
           Big         \* FALSE: quick domains, TRUE: thorough domains
 
 \* ------------------------------------------------------------------ permissions (as in C01)
@@ -86,6 +92,7 @@ JWTAdmitTok(cfg, rq, t) ==
     ELSE CASE t.time = "ok"      -> {TRUE}
            [] t.time = "expired" -> {FALSE}
            [] t.time = "notyet"  -> {FALSE}
+           [] t.time = "exponly" -> {TRUE}           \* in date, no nbf/iat claims
            [] t.time = "noexp"   -> {TRUE, FALSE}    \* no expiry claim: left open
 
 \* ------------------------------------------------------------------ where the token is taken from
@@ -151,7 +158,7 @@ JWTImpl(c) ==
          /\ t.sig \in {"rs256", "es256", "nokid"}
          /\ (c.cfg.iss # "" => t.iss = c.cfg.iss)
          /\ (c.cfg.aud # "" => \E i \in 1..Len(t.aud.v) : t.aud.v[i] = c.cfg.aud)
-         /\ t.time \in {"ok", "noexp"}           \* the parser does not require an expiry claim
+         /\ t.time \in {"ok", "exponly", "noexp"}   \* the parser does not require an expiry claim
          /\ t.form \in {"array", "string"}
          /\ Grants(t.perms, c.rq.action, c.rq.path)
 
@@ -172,6 +179,8 @@ NoBody == [user |-> "", password |-> "", token |-> "", ip |-> "", action |-> "",
 \* behaviours of the auth server of the harness
 Behaviours == {"s200", "s204", "s299", "s300", "s301noloc", "s301get", "s303get", "s307post",
                "s401", "s500", "hang", "refused"}
+\* "bycred": an authority that decides by what the POST carries: 200 iff token "T1" or alice/"P1"
+ByCredGrants(b) == b.token = "T1" \/ (b.user = "alice" /\ b.password = "P1")
 RedirectToGet == {"s301get", "s303get"}
 HTTPImpl(c) ==
     IF Grants(c.cfg.excl, c.rq.action, c.rq.path) THEN [ok |-> TRUE, log |-> <<>>]
@@ -192,6 +201,8 @@ HTTPImpl(c) ==
               [] c.beh = "s500"      -> [ok |-> FALSE, log |-> <<post(500)>>]
               [] c.beh = "hang"      -> [ok |-> FALSE, log |-> <<post(0)>>]
               [] c.beh = "refused"   -> [ok |-> FALSE, log |-> <<>>]
+              [] c.beh = "bycred"    -> IF ByCredGrants(body) THEN [ok |-> TRUE, log |-> <<post(200)>>]
+                                        ELSE [ok |-> FALSE, log |-> <<post(401)>>]
 
 \* ------------------------------------------------------------------ bounded domains
 Cfg(method, iss, aud, excl, inq) == [method |-> method, iss |-> iss, aud |-> aud, excl |-> excl, inq |-> inq]
@@ -257,28 +268,80 @@ JExclCases ==
     {Case("jexcl", JCfg("", "", ex, "nil"), InField(t, k), "") :
         ex \in ExclLists, t \in Targets \cup JTargets, k \in {None, Good, Bad, Jwt("rs256", "", AudNone, "ok", "array", "mixed")}}
 
+\* --- sequences on one manager (history independence)
+SeqCase(prof, cfg, steps, beh) == [prof |-> prof, cfg |-> cfg, steps |-> steps, beh |-> beh]
+IsSeq(x) == "steps" \in DOMAIN x
+StepCase(sc, i) == Case(sc.prof, sc.cfg, sc.steps[i], sc.beh)
+
+FullAud == AudStr("aud1")
+Priors == {Good,                                                        \* valid, carries iss and aud
+           Bad,                                                         \* forged (payload changed), carries iss and aud
+           Jwt("otherkey", "iss1", FullAud, "ok", "array", "all"),      \* forged (foreign key)
+           Jwt("rs256", "iss1", FullAud, "expired", "array", "all"),    \* expired
+           Jwt("rs256", "iss1", FullAud, "notyet", "array", "readcam"), \* not yet valid, other permissions
+           None}
+Nexts  == {Jwt("rs256", "", AudNone, "ok", "array", "all"),             \* signed by the JWKS key, no iss / aud
+           Jwt("rs256", "", AudNone, "exponly", "string", "all"),
+           Jwt("es256", "", FullAud, "ok", "array", "all"),             \* no iss
+           Jwt("rs256", "iss1", AudNone, "exponly", "array", "all"),    \* no aud
+           Jwt("rs256", "other", AudStr("other"), "ok", "array", "all"),
+           Jwt("rs256", "iss1", FullAud, "exponly", "array", "all"),    \* fine, without nbf/iat
+           Jwt("rs256", "iss1", FullAud, "ok", "array", "none"),        \* fine, but grants nothing
+           Jwt("rs256", "iss1", FullAud, "ok", "missing", "all"),       \* no permission claim
+           Good, None}
+SeqCfgs == {JCfg("iss1", "aud1", "none", "nil"), JCfg("iss1", "", "none", "nil"), JCfg("", "aud1", "none", "nil")}
+SeqT == <<"read", "cam", "rtsp">>
+JSeqCases ==
+    {SeqCase("jseq", cf, <<InField(SeqT, a), InField(SeqT, b)>>, "") : cf \in SeqCfgs, a \in Priors, b \in Nexts}
+    \cup {SeqCase("jseq", cf, <<InField(SeqT, a), InField(SeqT, m), InField(SeqT, b)>>, "") :
+            cf \in SeqCfgs, a \in Priors, m \in {None, Bad, Jwt("rs256", "", AudNone, "ok", "array", "readcam")},
+            b \in {Jwt("rs256", "", AudNone, "ok", "array", "all"), Jwt("rs256", "iss1", FullAud, "exponly", "array", "all"),
+                    Jwt("rs256", "iss1", FullAud, "ok", "missing", "all")}}
+
+\* http method: credentials of one request must not decide another one
+HSeqRqs == {Rq("read", "cam", "rtsp", cr[1], cr[2], cr[3], cr[4], <<>>, FALSE) :
+             cr \in {<<"alice", Text("P1"), None, <<>>>>,       \* granted
+                     <<"bob", Text("P1"), None, <<>>>>,         \* not granted
+                     <<"", None, Text("T1"), <<>>>>,            \* granted
+                     <<"carol", None, Text("T2"), <<>>>>,       \* not granted
+                     <<"", None, None, <<Text("T1")>>>>,        \* granted (query token, RTSP)
+                     <<"alice", None, None, <<Text("Q1")>>>>}}  \* not granted
+HSeqCases ==
+    {SeqCase("hseq", HCfg("none"), <<a, b>>, "bycred") : a \in HSeqRqs, b \in HSeqRqs}
+    \cup {SeqCase("hseq", HCfg("none"), <<a, m, b>>, "bycred") : a \in HSeqRqs, m \in HSeqRqs,
+            b \in {Rq("read", "cam", "rtsp", "bob", Text("P1"), None, <<>>, <<>>, FALSE),
+                   Rq("read", "cam", "rtsp", "carol", None, Text("T2"), <<>>, <<>>, FALSE)}}
+
 CasesOf(p) ==
     CASE p = "hstatus" -> HStatusCases [] p = "htoken" -> HTokenCases [] p = "jclass" -> JClassCases
       [] p = "jsig" -> JSigCases [] p = "jplace" -> JPlaceCases [] p = "jexcl" -> JExclCases
+      [] p = "jseq" -> JSeqCases [] p = "hseq" -> HSeqCases
 
 \* ------------------------------------------------------------------ bounded model
 VARIABLES c, res, done
 vars == <<c, res, done>>
 
+\* layer 1 keeps nothing between requests: a sequence is decided step by step
+OneImpl(x) == IF x.cfg.method = "jwt" THEN [ok |-> JWTImpl(x), log |-> <<>>] ELSE HTTPImpl(x)
+\* the statement on one decision (r = rendered strings, used by the http method)
+OneOK(x, r, ok, log) == IF x.cfg.method = "jwt" THEN ok \in JWTAdmit(x) ELSE HTTPObsOK(x, r, ok, log)
+
 Init == \E p \in Profiles : c \in CasesOf(p) /\ res = <<>> /\ done = FALSE
 Eval == /\ ~done /\ done' = TRUE /\ UNCHANGED c
-        /\ res' = IF c.cfg.method = "jwt" THEN [ok |-> JWTImpl(c), log |-> <<>>] ELSE HTTPImpl(c)
+        /\ res' = IF IsSeq(c) THEN [i \in 1..Len(c.steps) |-> OneImpl(StepCase(c, i))] ELSE OneImpl(c)
 Next == Eval
 Spec == Init /\ [][Next]_vars
 
 \* layer 1 |= layer 2
 ImplSatisfiesProp ==
-    done => IF c.cfg.method = "jwt" THEN res.ok \in JWTAdmit(c)
-            ELSE HTTPObsOK(c, RenderText(c.rq), res.ok, res.log)
+    done => IF IsSeq(c)
+            THEN \A i \in 1..Len(c.steps) :
+                   OneOK(StepCase(c, i), RenderText(c.steps[i]), res[i].ok, res[i].log)
+            ELSE OneOK(c, RenderText(c.rq), res.ok, res.log)
 \* a redirect that would drop the request body never admits
 RedirectDiverges ==
-    (done /\ c.cfg.method = "http" /\ c.beh \in RedirectToGet /\ ~Excluded(c)) => ~res.ok
+    (done /\ ~IsSeq(c) /\ c.cfg.method = "http" /\ c.beh \in RedirectToGet /\ ~Excluded(c)) => ~res.ok
 
-EmitCases == done => Emit("CASE", [c |-> c, l1ok |-> res.ok])
+EmitCases == done => Emit("CASE", [c |-> c, l1ok |-> IF IsSeq(c) THEN [i \in 1..Len(c.steps) |-> res[i].ok] ELSE res.ok])
 ASSUME Emit("PERMS", [n \in PermNames |-> PermsOf(n)])
 =============================================================================
